@@ -6,9 +6,6 @@ From JP Require Import Peg Grammar Slice Text Tree Actions Json Eval WF Spec Sor
 From Coq Require Import Lia.
 Open Scope list_scope.
 
-(* is the path of these steps a value group (may select several values)? *)
-Definition rstep_vg (x : rstep) : bool := match x with RPlain s => step_vg s | RRec _ => true end.
-Definition steps_vg (steps : list rstep) : bool := existsb rstep_vg steps.
 (* what the aggregate receives *)
 Definition agg_input (steps : list rstep) (doc : value) : list value :=
   let vals := map snd (nav_all steps ([], doc)) in
@@ -28,12 +25,6 @@ Section AggAddr.
   Notation sp := (sp ffun afun regex_match).
   Notation sc := (sc ffun afun regex_match).
   Notation plainl := (Forall (fun kb : kind * basic => plain_kind (fst kb))).
-
-  Lemma pres_vg steps : any_vg (pres cfg steps) = steps_vg steps.
-  Proof.
-    induction steps as [|x r IH]; [reflexivity|]. unfold pres. cbn [flat_map steps_vg existsb]. unfold any_vg in *. rewrite existsb_app.
-    unfold pres in IH. rewrite IH. destruct x as [s|s]; cbn [rstep_pre existsb snd rstep_vg pre_basic pre_basic_vg rec_basic mk_basic vgroup orb]; [rewrite orb_false_r|]; reflexivity.
-  Qed.
 
   Lemma finp_pres p x r : exists b1 b2, finp p (cl (pres cfg (x :: r))) = OSome (seg x b1 b2 (finp p (cl (pres cfg r)))) /\ accessor b2 = false.
   Proof.
@@ -60,7 +51,7 @@ Section AggAddr.
 
   Lemma param_vg p x r : vgroup (node_basic (param_of p (pres cfg (x :: r)))) = steps_vg (x :: r).
   Proof.
-    rewrite <- pres_vg. unfold param_of. destruct (pres cfg (x :: r)) as [|y l] eqn:E.
+    rewrite <- (pres_vg cfg). unfold param_of. destruct (pres cfg (x :: r)) as [|y l] eqn:E.
     - exfalso. unfold pres in E. cbn [flat_map] in E. destruct x as [s|s]; discriminate E.
     - reflexivity.
   Qed.
